@@ -198,12 +198,39 @@ pub fn parse_cfg(s: &str) -> Cfg {
         crlf: f.len() > 12 && f[12] == "1",
     }
 }
+/// The builders offer several equivalent ways to say the same thing (`append()` / `o_append(true)`, `rotate(..)` /
+/// `o_rotate(Some(..))`, `suffix(s)` / `o_suffix(Some(s))`, ...): which one a case uses is decided by a hash of its
+/// configuration, so that all of them are tied to the same model.
+fn variant(c: &Cfg) -> u32 {
+    let mut h: u32 = 2166136261;
+    let mut eat = |b: &[u8]| {
+        for x in b {
+            h = (h ^ u32::from(*x)).wrapping_mul(16777619);
+        }
+    };
+    eat(&c.spec_parts.0);
+    eat(c.spec_parts.1.as_deref().unwrap_or(b"~"));
+    eat(c.spec_parts.3.as_deref().unwrap_or(b"~"));
+    eat(&[u8::from(c.append), u8::from(c.utc), u8::from(c.link), u8::from(c.bg), u8::from(c.crlf), c.cap.unwrap_or(0) as u8]);
+    h ^ (h >> 15)
+}
 pub fn file_spec(c: &Cfg, dir: &Path) -> FileSpec {
-    let fs = FileSpec::default()
-        .directory(dir)
-        .basename(ustr(&c.spec_parts.0))
-        .o_discriminant(c.spec_parts.1.as_ref().map(|b| ustr(b)))
-        .o_suffix(c.spec_parts.3.as_ref().map(|b| ustr(b)));
+    let v = variant(c);
+    let fs = if v & 1 == 0 { FileSpec::default().directory(dir) } else { FileSpec::default().o_directory(Some(dir)) };
+    let base = ustr(&c.spec_parts.0);
+    let fs = match (v >> 1) & 3 {
+        0 if base.is_empty() => fs.suppress_basename(),
+        1 => fs.o_basename(Some(base)),
+        _ => fs.basename(base),
+    };
+    let fs = match (&c.spec_parts.1, (v >> 3) & 1) {
+        (Some(d), 0) => fs.discriminant(ustr(d)),
+        (d, _) => fs.o_discriminant(d.as_ref().map(|b| ustr(b))),
+    };
+    let fs = match (&c.spec_parts.3, (v >> 4) & 1) {
+        (Some(x), 0) => fs.suffix(ustr(x)),
+        (x, _) => fs.o_suffix(x.as_ref().map(|b| ustr(b))),
+    };
     // None: the time-stamp setting stays undecided (a start time is then used exactly if there is no rotation)
     match c.spec_parts.2 {
         Some(b) => fs.use_timestamp(b),
@@ -211,9 +238,13 @@ pub fn file_spec(c: &Cfg, dir: &Path) -> FileSpec {
     }
 }
 pub fn builder(c: &Cfg, dir: &Path, link: &Path) -> FileLogWriterBuilder {
-    let mut b = FileLogWriter::builder(file_spec(c, dir))
-        .format(raw_format)
-        .o_append(c.append)
+    let v = variant(c);
+    let mut b = FileLogWriter::builder(file_spec(c, dir)).format(raw_format);
+    b = match (c.append, (v >> 5) & 1) {
+        (true, 0) => b.append(),
+        (a, _) => b.o_append(a),
+    };
+    b = b
         .cleanup_in_background_thread(c.bg)
         .write_mode(match (c.cap, c.asyn) {
             (_, Some((pool_capa, message_capa))) => WriteMode::AsyncWith {
@@ -224,17 +255,26 @@ pub fn builder(c: &Cfg, dir: &Path, link: &Path) -> FileLogWriterBuilder {
             (None, None) => WriteMode::Direct,
             (Some(n), None) => WriteMode::BufferDontFlushWith(n),
         });
-    if let Some((crit, naming, cleanup)) = c.rot {
-        b = b.rotate(crit, naming, cleanup);
-    }
+    // (with an undecided time-stamp setting o_rotate(None) decides it - "use a time stamp" -, which is what the builder
+    //  does anyway when no rotation is configured)
+    b = match (c.rot, (v >> 6) & 1) {
+        (Some((crit, naming, cleanup)), 0) => b.rotate(crit, naming, cleanup),
+        (None, 0) => b,
+        (r, _) => b.o_rotate(r),
+    };
     if c.utc {
         b = b.use_utc();
     }
-    if c.link {
-        b = b.create_symlink(link);
-    }
+    b = match (c.link, (v >> 7) & 1) {
+        (true, 0) => b.create_symlink(link),
+        (false, 0) => b,
+        (l, _) => b.o_create_symlink(if l { Some(link) } else { None }),
+    };
     if c.crlf {
         b = b.use_windows_line_ending();
+    }
+    if (v >> 8) & 1 == 1 {
+        b = b.o_print_message(false);
     }
     b
 }
